@@ -675,6 +675,7 @@ func (r *Runner) probeHang(job Job, e *Exec, pcs []*Term, jr *JobResult) {
 			res, _, _ := r.L.RunNative(job.Dir, []string{path}, false)
 			r.L.watchdog = ""
 			r.L.wdMu.Unlock()
+			os.Remove(path)
 			if dbg {
 				fmt.Fprintf(os.Stderr, "probe %s mask %d: native %+v\n", job.Label, mask, res)
 			}
